@@ -145,7 +145,7 @@ pub fn pool(d: &IDesc, seed: u64, want: usize) -> Vec<Box<dyn DC>> {
 				}
 			}
 			FieldKind::Float => {
-				for x in [0.0, 0.05, 0.1, 0.25, 0.5, 0.75, 0.999, 1.0, 1.5, 2.0, 3.0] {
+				for x in [0.0, 0.0005, 0.004, 0.05, 0.1, 0.25, 0.5, 0.75, 0.999, 1.0, 1.5, 2.0, 3.0] {
 					let mut o = obj.clone();
 					o.insert(f.0.clone(), json!(x));
 					push(o, &mut out);
@@ -188,7 +188,7 @@ pub fn pool(d: &IDesc, seed: u64, want: usize) -> Vec<Box<dyn DC>> {
 					o.insert(f.0.clone(), ma(k, if k == "wsma" { p.min(127) } else { p }));
 				}
 				FieldKind::Float => {
-					let x = if rng.chance(0.7) { (rng.below(101) as f64) / 100.0 } else { rng.f() * 3.0 };
+					let x = if rng.chance(0.12) { [0.0002, 0.0005, 0.001, 0.003][rng.below(4) as usize] } else if rng.chance(0.7) { (rng.below(101) as f64) / 100.0 } else { rng.f() * 3.0 };
 					o.insert(f.0.clone(), json!(x));
 				}
 				FieldKind::Source => {
